@@ -51,13 +51,14 @@ PROPS["C14"] = simple(
     "verifchk/c14", "TestVerifC14", "exploration",
     "random trees (depth <= 6, <= 40 content characters) of style.{Bold,Italic,Underline,Strikethrough,Code,CodeBlock,Highlight,Color,Red,"
     "Problem,Link,LinkBlock,Header,QuoteBlock,Bullet} over concatenated labelled text with embedded spaces and newlines, followed by 0..5 "
-    "layout operations (Wrap, DumbWrap, Pad, Indent, Snip at widths 1..30); second part: renderings of generated documents, items and frames "
+    "layout operations (Wrap, DumbWrap, Pad, Indent, Snip at widths 1..30); content includes combining marks (also at line starts) and blanks other than the ASCII space; second part: renderings of generated documents and items "
     "are checked for neutrality at every line end. Non-trivial = the tree has at least one content character; distinct = (tree, layout sequence).",
     shards=dict(quick=8, thorough=16),
     floor=dict(evaluations=20000, distinct=10000, rendered_strings_checked=3000),
     technique="runtime monitor: terminal attribute state machine over outputs of generated style compositions, compared with per-character expectations",
     level_text="A terminal attribute machine replays every generated output: each content character must be displayed with exactly the flags of the "
-               "style functions wrapped around it (colour: one of the wrapping colours, none if none), no attribute may be active at any newline "
+               "style functions wrapped around it (colour: the innermost wrapping colour, none if none); every character of the unwrapped result - decoration and whitespace included - must equal a cell-level reference "
+               "of the styling layer; wrapping may only drop blanks and insert line breaks (exact cell subsequence); no attribute may be active at any newline "
                "or at the end of the string, and this must survive any sequence of layout operations. Sampled, not exhaustive.",
     level_note="Trusted: kit/term and the expectation bookkeeping in harness/verifchk/c14. When two colours of the same plane are nested, the one applied closest to the character (the innermost call) is expected, since both cannot be displayed.",
 )
@@ -83,7 +84,7 @@ PROPS["C10"] = simple(
     "page chains built as embedded JSON (root Collection/OrderedCollection + CollectionPage chain) whose elements are unique tags e-<page>-<idx>, "
     "harvested through pub.NewCollectionFromObject with a tagging constructor. Enumerated: every layout of 1..4 (quick) / 1..5 (thorough) pages with "
     "sizes 0..2 / 0..3, both kinds, 36+6 request-size patterns over sizes 0..6, start offsets {0,1,2,4}. PRNG: 1..9 pages, sizes 0..7, runs of up to 6 "
-    "empty pages, missing items key, single-value items, five kinds of broken next link, request sizes from {0,1,2,3,5,6,7,50}, start offsets 0..8; "
+    "empty pages, missing items key, single-value items, five kinds of broken next link, decoy first/prev/partOf/last/current links, request sizes from {0,1,2,3,5,6,7,50}, start offsets 0..8; "
     "remote/cyclic chains through the TLS simulator. Non-trivial: every case (each has at least one page); distinct = (layout, request sizes, start).",
     shards=dict(quick=8, thorough=16),
     floor=dict(evaluations=20000, distinct=5000, harvest_calls=20000),
@@ -113,8 +114,9 @@ PROPS["C11"] = simple(
 PROPS["C12"] = simple(
     "verifchk/c12", "TestVerifC12", "exploration",
     "documents from a grammar of inline and block elements in HTML, Markdown (GFM), gemtext and plain text with 0..12 planted links/media (each with a unique "
-    "upper-case label and a unique target; anchors, img/video/audio/iframe, linked images, autolinks, label-less links whose target is displayed), nesting depth "
-    "<= 4, plus 0..5 attachments (Link/Image/Video/Document/Audio, named or not), wrapped as post, actor bio or activity; rendered at width 600 (reference) and "
+    "upper-case label and a unique target; anchors, img/video/audio/iframe (with undisplayed fallback content), linked images, autolinks, label-less links whose target is displayed, anchors without "
+    "any visible text), nesting depth "
+    "<= 4, plus 0..5 attachments (Link/Image/Video/Document/Audio, named or not, some without a usable label), wrapped as post, actor bio or activity; rendered at width 600 (reference) and "
     "four PRNG widths in 1..120; SelectLink probed at every displayed number and at 0, -1, N+1, N+2, +-2^31, -N. Non-trivial = at least one link; distinct = item JSON.",
     shards=dict(quick=8, thorough=16),
     floor=dict(evaluations=2000, distinct=1000, links_checked=5000),
@@ -171,7 +173,7 @@ PROPS["C03"] = simple(
     "webs of 40..160 addresses on five loopback TLS hosts (two ports, IPv6), each answering with a response drawn from a grammar: status lines (HTTP/1.0|1.1, codes 100..599, "
     "with/without reason, LF/CRLF, garbage, grey forms), 0..8 headers (tolerated / foreign / malformed / grey Content-Types, duplicates and conflicts, noise look-alikes, Location in "
     "absolute, scheme-relative, path-, query- and dot-relative, non-https, empty, invalid and grey forms), bodies (object, nested, null, array, scalar, empty, truncated, garbage, grey); "
-    "planned redirect chains of length budget-2..budget+3, cycles of length 1..4; random walks of 200..300 fetches per web through jtp.Get (ActivityPub and webfinger profiles) and "
+    "wildcard media types, address twins differing only in letter case; planned redirect chains of length budget-2..budget+3, cycles of length 1..4; random walks of 200..300 fetches per web through jtp.Get (ActivityPub and webfinger profiles) and "
     "client.FetchURL, one process per (cache size, redirect budget) in {(128,20),(1,20),(2,3),(3,1),(128,0),(2,20)}. Non-trivial: every fetch; distinct = (web, address, reference class, requests seen).",
     variants=c03_variants,
     floor=dict(evaluations=2000, distinct=1000, accepted=100, rejected=300, refetches=300),
@@ -205,7 +207,9 @@ PROPS["C05"] = simple(
     "corpus of 12 response chains (plain, minimal, long headers, LF-only, ld+json, nested and big bodies, two Content-Types, 1- and 2-hop redirect chains incl. a relative Location; 150..1100 "
     "bytes each): EVERY cut point k in [0, len+8] x close style {close_notify, FIN, RST} at EVERY hop (thorough; quick: 4 chains, every 3rd byte), through client.FetchURL and pub.New; "
     "stalls and 1-byte/300 ms trickles at the stages start / mid status line / after status line / mid header / after headers / mid body / before the last brace, a silent peer after the "
-    "handshake and a peer that never completes the handshake, at every hop of 2 (quick) / 3 chains; refused port, non-TLS peer, binary garbage, 1 MB line, 1 MB header, truncated responses. "
+    "handshake and a peer that never completes the handshake, at every hop of 2 (quick) / 3 chains; refused port, non-TLS peer, 20 kinds of garbage (binary, bare-LF lines, 1 MB line/header, 20000-deep JSON ...) "
+    "and mutation-based garbage (byte flips, deletions, insertions, CRLF->LF); bursts of 14 faults of one kind followed by a fetch from a healthy server; four faults seen through ui.State "
+    "(loading screen must give way to an error in time, keys still handled). In the quick tier the cut points around every line end, the first/last brace and the end of the needed part are always included. "
     "timeout_seconds = 1. Non-trivial: every fault case; distinct by construction (enumeration).",
     config=dict(preload=5, timeout=1, cache=128),
     shards=dict(quick=8, thorough=16),
@@ -223,7 +227,9 @@ PROPS["C09"] = simple(
     "generated multi-host worlds (3 loopback TLS hosts, 3..6 actors, threads with ancestors, paged reply collections and outboxes, Create/Announce/Like/Dislike activities) in which "
     "5..30 % of the mentions are anomalous: activity by another actor, without actor, not loading (404/garbage/500), foreign activity embedded with a forged id, bare post or number in an "
     "outbox; reply to another post, without inReplyTo, parent differing only in its query, deleted/broken reply, actor or number among replies, reply with a foreign-host author; "
-    "entries mentioned by address, embedded, or as {id,type} stubs; empty pages, trailing broken page, missing collection. Every actor's outbox and every post's replies are harvested to "
+    "id-less embedded notes (with and without author claim, with comment sections), authors embedded without id, co-authors that fail to load in front of a foreign author, posts that survive only as an "
+    "embedded copy, hosts sharing an IP address and differing in the port, query-style ids; entries mentioned by address, embedded, or as {id,type} stubs; empty pages, trailing broken page, missing collection. "
+    "Every actor's outbox, every post's replies and the comment sections of the posts inside listed activities are harvested to "
     "exhaustion in PRNG chunk sizes. Non-trivial: every listing; distinct = (owner, expected sequence).",
     shards=dict(quick=8, thorough=16),
     floor=dict(evaluations=500, distinct=300, genuine_entries_shown=500, impostors_shown_as_errors=100, authors_checked=100),
@@ -244,7 +250,8 @@ PROPS["C02"] = simple(
     "generated multi-host worlds (two victim hosts, one attacker host, a second attacker sharing a victim's IP on another port) plus 12 attack constructions per world drawn from: forged "
     "embedded copies of victims' objects (as parent, author, actor, object, collection items), {id,type} stubs, plain references, attacker->victim redirects (legitimate), a victim's open "
     "redirect landing on the attacker's forgery, attacker->open-redirect->forgery chains, forgeries served under the attacker's address with the victim's id, ghost ids that 404 at the victim, "
-    "forged documents carrying fake reply collections. L1: a crawler applies the honest-caller contract (source = validated id of the enclosing object) to every value of every accepted "
+    "forged documents carrying fake reply collections, inline Creates claiming the victim's host around a forged copy, redirect targets naming the redirecting address, anonymous pages of a victim's collection hosted "
+    "elsewhere, victim ids redirecting to self-consistent attacker documents, inline copies of objects whose id does not load (18 constructions). L1: a crawler applies the honest-caller contract (source = validated id of the enclosing object) to every value of every accepted "
     "object, in random order; L2: pub.New on every entry and a bounded walk over parents, children, authors, actors and targets. One process per cache size in {128, 2, 1}. "
     "Non-trivial: every world; distinct = (world, forgeries, accepted pairs).",
     variants=c02_variants,
@@ -269,7 +276,8 @@ PROPS["C07"] = simple(
     "ui.State started through Subcommand (open / feed) against generated multi-host worlds (threads with 0..8 ancestors, 0..15 paged replies, actors with 0..30 outbox activities, "
     "multi-author posts, audiences, missing/failing collections, 0..30 % anomalous mentions), then 150 (quick) / 400 (thorough) key tokens per session: 70 % navigation (j k g h l space "
     "c r a o p b), numbers incl. 0, 0..39 and 19..22-digit ones followed by Enter, '.', another key, Esc or Backspace, :open <address|@handle|nowhere>, :feed <name>, :garbage, Esc, "
-    "Backspace, arbitrary bytes 0..255; terminal resizes in between; preload_amount in {1, 2, 5} (one process each). Non-trivial: every compared state; distinct = (world, highlighted item, kind of page, mode, key class) situations in which UI and model were compared.",
+    "Backspace, command-mode bytes >= 0x80 with backspaces, arbitrary bytes 0..255; terminal resizes in between; keys typed while a slow media hook is still running; moves followed at once by a "
+    "page-changing key with 1..4 ms response latency (loads complete for a page that is no longer current); preload_amount in {1, 2, 5} (one process each). Non-trivial: every compared state; distinct = (world, highlighted item, kind of page, mode, key class) situations in which UI and model were compared.",
     variants=ui_variants([5, 1, 2]),
     tools=["dumphook"],
     floor=dict(evaluations=5000, distinct=2000, tokens_checked=2000),
@@ -406,9 +414,9 @@ PROPS["C01"] = simple(
     "four routes, every sink (Name, String, Preview, Markup.Render, creator/actor names, error items, UI frames): (1) 53 payload classes (ESC-CSI, cursor, SGR with parameters servitor never "
     "emits, OSC+BEL, OSC+ST, DCS, charset, bare ESC, every C0 but newline/tab, DEL, C1 CSI/OSC/DCS/NEL and others) planted through JSON into 43 fields of posts, actors, activities and "
     "collection items (titles, bodies in the four media types, timestamps, types, media types, URLs, link/attachment fields, author names and handles, HTML attribute values and tag names, "
-    "Markdown link text/code, gemtext links); (2) 16 character-reference forms (&#27;[2J, &#x1b;]0;x&#7;, &#155;, &#x9b;, &#8;, &#127;, &#0;, padded and semicolon-less forms) in the same places; "
+    "Markdown link text/code, gemtext links, 16 HTML and 6 Markdown structural contexts incl. pre/code); (1b) percent-encoded control bytes in URL-valued fields; (2) 16 character-reference forms (&#27;[2J, &#x1b;]0;x&#7;, &#155;, &#x9b;, &#8;, &#127;, &#0;, padded and semicolon-less forms) in the same places; "
     "(3) the payloads plus raw 0x9B / high bytes inside 15 kinds of HTTP responses (status line, reason, Content-Type, Location, header names, non-JSON bodies, JSON keys) served by the simulator so "
-    "that the fetch fails with an error quoting them, rendered as error item and embedded as parent/author of another item; (4) every frame of UI sessions over worlds decorated with the "
+    "that the fetch fails with an error quoting them, rendered as error item, embedded as parent/author of another item, and surfacing inside otherwise healthy items (actor outbox/icon, activity actor/object, audience, collection page); (4) every frame of UI sessions over worlds decorated with the "
     "payloads, with a failing media hook whose output carries one. Widths from {1,2,5,8,20,80,200} and PRNG picks. Non-trivial: every case; routes 1-3 are enumerated (field x payload).",
     variants=ui_variants([3]),
     tools=["dumphook"],
